@@ -5,7 +5,8 @@ open VibeProof VibeProof.Proto VibeProof.Codec VibeProof.Join
 def keyAt (i : Nat) (r : Row) : Value := (r[i]?).getD .null
 
 /-- `join|nested|semi|anti|notin KL KR (left rows) (right rows)` → `(rows R…)`;
-    `notin` is the definitional TRUE-set of `x NOT IN (S)` (the spec), `anti` the algorithm. -/
+    `notin` is the definitional TRUE-set of `x NOT IN (S)` (the spec), `anti` the algorithm,
+    `notinaware` the engine's conversion of a user-written NOT IN (anti join + NULL guard). -/
 def handle : List Sx → Sx
   | [.atom op, .atom kl, .atom kr, l, r] =>
     match kl.toNat?, kr.toNat?, decRows l, decRows r with
@@ -15,6 +16,7 @@ def handle : List Sx → Sx
         | "nested" => some (nestedLoop (keyAt i) (keyAt j) ls rs)
         | "semi" => some (hashSemi (keyAt i) (keyAt j) ls rs)
         | "anti" => some (hashAnti (keyAt i) (keyAt j) ls rs)
+        | "notinaware" => some (notInNullAware (keyAt i) (keyAt j) ls rs)
         | "notin" => some (filter3 (fun x => TV.not3 (inTV (keyAt i x) (rs.map (keyAt j)))) ls)
         | "in" => some (filter3 (fun x => inTV (keyAt i x) (rs.map (keyAt j))) ls)
         | _ => none
